@@ -45,9 +45,13 @@ def assist(project, source, position, filename=None, debug=False):
             module = project.get_nmodule(head, filename)
             return prefix, sorted(set(plist) | set(module.attr_list(ctx)))
 
+    attr = get_marked_atribute(source.tree)
+    if attr:
+        # the tree keeps the attribute name the user typed, without the mark
+        attr._orig.attr = attr.attr
+
     scope = extract_scope(source, project)
 
-    attr = get_marked_atribute(source.tree)
     names = {}
     if attr:
         value = ctx.evaluate(attr.value)
